@@ -1497,11 +1497,16 @@ class AttrParser(BaseParser):
         type = self._parse_attribute_type()
 
         if isinstance(type, AnyFloat):
-            if is_hexadecimal_token:
-                assert isinstance(value, int)
-                raw = value.to_bytes(type.compile_time_size, "little")
-                return FloatAttr(next(type.iter_unpack(raw)), type)
-            return FloatAttr(float(value), type)
+            try:
+                if is_hexadecimal_token:
+                    assert isinstance(value, int)
+                    raw = value.to_bytes(type.compile_time_size, "little")
+                    return FloatAttr(next(type.iter_unpack(raw)), type)
+                return FloatAttr(float(value), type)
+            except (OverflowError, ValueError) as e:
+                self.raise_error(f"Literal is out of range for type {type}: {e}")
+            except NotImplementedError:
+                self.raise_error(f"Literals of type {type} are not supported")
 
         if isa(type, IntegerType | IndexType):
             if isinstance(value, float):
